@@ -36,7 +36,7 @@ class ClientAuthenticator:
         self.protocol = protocol
         self.unixFDSupport = self._usesUnixSocketTransport(self.protocol)
         self.guid = None
-        self.cookiedir = None  # used for testing only
+        self.cookie_dir = None  # used for testing only
 
         self.authOrder = self.preference[:]
         self.authOrder.reverse()
